@@ -65,7 +65,9 @@ func (d *deduplicationStrategy) eval(
 	var rewriteKeys [][]byte
 	var rewriteValues [][]byte
 	// first, check if the whole entity is equal to the previous entity
+	isDuplicate := false
 	if server.IsEntityEqual(d.prevEntityBytes, entityBytes, d.prev, e) {
+		isDuplicate = true
 		// if to be deleted... delete 5 key types for each change version:
 		// 1.delete json entry (key already in keysToDelete)
 		del = append(del, jsonKey)
@@ -128,6 +130,13 @@ func (d *deduplicationStrategy) eval(
 			}
 		}
 	}
+	if !isDuplicate {
+		// this version stays, so it is the comparison base for the next version - also when
+		// some of its (unchanged) reference keys are removed
+		d.prevJsonKey = jsonKey
+		d.prevEntityBytes = entityBytes
+		d.prev = e
+	}
 	if len(del) > 0 {
 		res := &compactionInstruction{
 			DeleteKeys: del,
@@ -138,9 +147,6 @@ func (d *deduplicationStrategy) eval(
 		}
 		return res, nil
 	}
-	d.prevJsonKey = jsonKey
-	d.prevEntityBytes = entityBytes
-	d.prev = e
 	return nil, nil
 }
 
